@@ -523,3 +523,57 @@ Definition build (p : stmts) (returns_none : bool) : outcome :=
     | inl g => Built g (bs_nested s)
     end
   end.
+
+(** The shape on which the model declines ([ErrUnmodelled]): some chained comparison has a
+    middle operand that is not [lift_free].  (Over-approximation inside comprehensions, where
+    chained comparisons are rejected anyway.) *)
+Fixpoint chain_mid (e : expr) : bool :=
+  match e with
+  | EConst _ | EName _ => false
+  | EUnary _ a => chain_mid a
+  | EBin _ a b => chain_mid a || chain_mid b
+  | ECmp l rest => chain_mid l || chain_mid_ctail rest
+  | EBool _ a b => chain_mid a || chain_mid b
+  | EIf c a b => chain_mid c || chain_mid a || chain_mid b
+  | EWalrus _ a => chain_mid a
+  | ECall f args => chain_mid f || chain_mid_list args
+  | ETuple es | EList es => chain_mid_list es
+  | ESub v i => chain_mid v || chain_mid i
+  | EAttr v _ => chain_mid v
+  | EStarred a => chain_mid a
+  | EComp _ elt gs => chain_mid elt || chain_mid_gens gs
+  | EDesugared _ _ _ | EComptime _ => false
+  | EOther _ es => chain_mid_list es
+  | EMakeIter a | EIterNext a => chain_mid a
+  end
+with chain_mid_list (es : exprs) : bool :=
+  match es with ENil => false | ECons e r => chain_mid e || chain_mid_list r end
+with chain_mid_ctail (ct : ctail) : bool :=
+  match ct with
+  | CLast _ e => chain_mid e
+  | CMore _ m r => negb (lift_free m) || chain_mid m || chain_mid_ctail r
+  end
+with chain_mid_gens (gs : gens) : bool :=
+  match gs with
+  | GNil => false
+  | GCons t it ifs r => chain_mid t || chain_mid it || chain_mid_list ifs || chain_mid_gens r
+  end.
+
+Definition chain_mid_opt (o : option expr) : bool :=
+  match o with Some e => chain_mid e | None => false end.
+
+Fixpoint chain_mid_stmt (s : stmt) : bool :=
+  match s with
+  | SAssign ts e => chain_mid_list ts || chain_mid e
+  | SAug t _ e => chain_mid t || chain_mid e
+  | SAnn t e => chain_mid t || chain_mid_opt e
+  | SExpr e => chain_mid e
+  | SIf c b o => chain_mid c || chain_mid_stmts b || chain_mid_stmts o
+  | SWhile c b o => chain_mid c || chain_mid_stmts b || chain_mid_stmts o
+  | SFor t it b o => chain_mid t || chain_mid it || chain_mid_stmts b || chain_mid_stmts o
+  | SBreak | SContinue | SPass | SOther _ => false
+  | SReturn e => chain_mid_opt e
+  | SDef b _ => chain_mid_stmts b
+  end
+with chain_mid_stmts (ss : stmts) : bool :=
+  match ss with SNil => false | SCons s r => chain_mid_stmt s || chain_mid_stmts r end.
